@@ -208,8 +208,12 @@ def gen_case(rng, rule=None):
             cfg["simultaneous"] = rng.random() < 0.5
         if rule in ("STV", "Alaska") and rng.random() < 0.3:
             cfg["transfer"] = "random"
-            for b in spec["b"]:
-                b["w"] = rat(max(1, int(Fraction(b["w"]))))
+            # whole weights, except that one case in ten keeps its fractional weights: the random transfer must then
+            # reject the profile with TypeError as soon as a winner's pile holds one (documented), and count it
+            # like any other profile when no pile does
+            if rng.random() < 0.9:
+                for b in spec["b"]:
+                    b["w"] = rat(max(1, int(Fraction(b["w"]))))
         if rule == "Alaska":
             m1 = rng.randint(1, n)
             cfg.update(m1=m1, m2=rng.randint(1, m1))
